@@ -14,7 +14,7 @@ from skgenome.tabio import seg as segio
 
 PROPERTY = "C08"
 FUNCTIONS = [
-    "skgenome.tabio.read/write/read_auto/sniff_region_format/format_patterns/safe_write/get_filename",
+    "skgenome.tabio.read/write/read_auto/sniff_region_format/format_patterns (compiled patterns translated to z3 regular expressions at run time)/safe_write/get_filename",
     "skgenome.tabio.tab.read_tab/write_tab, bedio.read_bed/read_bed3/read_bed4/write_bed3/write_bed4",
     "skgenome.tabio.picard.read_interval/write_interval/read_picard_hs, textcoord.read_text/write_text",
     "skgenome.tabio.gff.read_gff, vcfsimple.read_vcf_sites/read_vcf_simple/parse_end_from_info/set_ends, seg.read_seg/parse_seg/write_seg/format_seg",
@@ -30,10 +30,10 @@ NOT_COVERED = [
     "the digits of symbolic floats (float columns are concrete samples)",
     "vcf through pysam (tabio 'vcf'): htslib, see C18",
     "genepred/refflat readers (not in the statement)",
-    "auto-detection on arbitrary names: detection is exercised on the lines each writer emits for the pool's names with symbolic coordinates",
+    "auto-detection: decided for an arbitrary ASCII line of each writer's line grammar (names of letters, digits, underscores; the compiled patterns are translated to z3 regular expressions) and, through the real regexes, for the pool's names with symbolic coordinates; non-ASCII names are outside",
 ]
 STUBS = []
-ASSUMPTIONS = ["file objects are in-memory text streams (io.StringIO)"]
+ASSUMPTIONS = ["file objects are in-memory text streams (io.StringIO)", "auto-detection: sequence names do not begin with 'track' (lines so beginning are display directives in BED/GFF); ASCII lines"]
 
 M = 3 * 10**8
 
@@ -225,6 +225,82 @@ def h_autodetect(ctx, fmt, chrom):
     ctx.cover("reached")
 
 
+_GRAMMARS = {}
+
+
+def _grammars():
+    if not _GRAMMARS:
+        _GRAMMARS.update(_build_grammars())
+    return _GRAMMARS
+
+
+def _build_grammars():
+    import z3
+    from symx import strre as R
+
+    def cat(*xs):
+        return z3.Concat(*xs)
+
+    T, NL = R._lit("\t"), R._lit("\n")
+    CH, NUM, NAME = z3.Plus(R.WORD), z3.Plus(R.DIGIT), z3.Plus(R.NOT_SPACE)
+    return {
+        "bed3": (cat(CH, T, NUM, T, NUM, NL), "bed"),
+        "bed4": (cat(CH, T, NUM, T, NUM, T, NAME, NL), "bed"),
+        "interval": (cat(CH, T, NUM, T, NUM, T, z3.Union(R._lit("+"), R._lit("-")), T, NAME, NL), "interval"),
+        "text": (cat(CH, R._lit(":"), NUM, R._lit("-"), NUM, NL), "text"),
+        "tab": (cat(z3.Re(z3.StringVal("chromosome\tstart\tend")), z3.Star(cat(T, z3.Plus(R.WORD))), NL), "tab"),
+        "gff": (cat(CH, T, NAME, T, z3.Plus(R.WORD), T, NUM, T, NUM, T, NAME, T, z3.Union(*[R._lit(c) for c in ".?+-"]), T, z3.Union(*[R._lit(c) for c in "012."]), T, z3.Star(R.NOT_NL), NL), "gff"),
+    }
+
+
+SNIFF_SAMPLES = [
+    "chr1\t100\t200\n", "chr1\t100\t200\tTP53\n", "1\t5\t9\t+\tG1\n", "chr1:100-200\n", "chrX:1-2\tgene\n", "chromosome\tstart\tend\tgene\tlog2\n",
+    "chr1\tsrc\tgene\t5\t9\t.\t+\t.\tName=G\n", "@HD\tVN:1.4\n", "track name=x\n", "\n", "HLA.A\t1\t2\n", "chr1\t1\t2\t-\tA B\n", "a:-\n", "TP53\tNM_1\tchr1\t+\t1\t9\t2\t8\t1\t1,\t9,\n",
+]
+
+
+def h_sniff(ctx, grammar):
+    """sniff_region_format on an arbitrary line of a writer's grammar: the compiled patterns are read
+    from the real module, translated to z3 regular expressions, and every pattern.match / startswith /
+    strip in the real control flow is a solver-decided branch."""
+    from symx import strre
+
+    lang, want = _grammars()[grammar]
+    real_patterns = dict(tabio.format_patterns)
+    if not concrete(ctx):
+        # validate the translation on concrete lines first (harness error on disagreement)
+        for name, pat in real_patterns.items():
+            bad = strre.agrees_on(pat, SNIFF_SAMPLES)
+            if bad:
+                raise core.HarnessError(f"regex translation of {name!r} disagrees with re on {bad[:2]}")
+    line = ctx.string("line", lang)
+    # precondition: BED/GFF reserve lines that begin with "track" (and "browser ") for
+    # display directives, so a sequence name beginning with "track" cannot be told from one
+    ctx.assume(Not(line.startswith("track")))
+
+    class _Handle:
+        def __iter__(self):
+            return iter([line])
+
+        def seek(self, n):
+            pass
+
+    for k, v in real_patterns.items():
+        tabio.format_patterns[k] = strre.SymPattern(v)
+    try:
+        got = tabio.sniff_region_format(_Handle())
+    except ValueError:
+        got = "unrecognized"
+    except Exception as exc:
+        ctx.claim(False, f"sniff_region_format raised {type(exc).__name__}", info=str(exc)[:200])
+        return
+    finally:
+        for k, v in real_patterns.items():
+            tabio.format_patterns[k] = v
+    ctx.claim(got == want, f"auto-detection selects the {want} parser for every line a {grammar} writer can emit (names of letters, digits, underscores)", info=str(got))
+    ctx.cover(f"detected {want}", got == want)
+
+
 def h_label(ctx):
     s = ctx.int("s", 0, M)
     e = ctx.int("e", 0, M)
@@ -318,6 +394,7 @@ HARNESSES = [
         [{"fmt": f, "chrom": c} for f in ("bed3", "bed4", "interval", "text", "tab", "gff", "gff-header") for c in ("chr1", "X", "chrUn_gl000220", "chr1_KI270706v1_random")],
         covers=["reached"],
     ),
+    Harness("sniff_symbolic_line", h_sniff, [{"grammar": g} for g in ("bed3", "bed4", "interval", "text", "tab", "gff")], covers=["detected bed", "detected interval", "detected text", "detected tab", "detected gff"], wall_s=240, query_timeout_ms=30000),
     Harness("rangelabel", h_label, [{}], covers=["start 0"]),
     Harness("seg_roundtrip", h_seg_roundtrip, [{"nsamples": 1}, {"nsamples": 2}, {"nsamples": 3, "tier": "thorough"}], covers=["start 0"], nonce_fork=False),
 ]
